@@ -10,7 +10,7 @@ RULE = ('seeded histories (opens with every connect outcome, polls, posts, upgra
 
 import hist
 # the clauses of the C05 oracle that do not presuppose that a handler runs to completion at once
-SUSPEND_CLAUSES = {'connect-first', 'disconnect-once', 'rejected-silent', 'none-after-disconnect', 'disconnect-exactly-once'}
+SUSPEND_CLAUSES = {'connect-first', 'disconnect-once', 'rejected-silent', 'none-after-disconnect', 'disconnect-exactly-once', 'ended-session-reaped'}
 RULE += ('. Plus, judged by the oracle alone (the model\'s handlers do not suspend): the same kind of histories with a disconnect handler that waits 1, 64 or 700 ticks of '
          'virtual time before it returns (a coroutine that awaits / a handler that blocks cooperatively), so that further end causes, requests and frames arrive while it is '
          'suspended: connect first and once, at most one disconnect, exactly one once ended, nothing for a rejected id, no event after the disconnect event')
@@ -19,6 +19,14 @@ RULE += ('. Plus, judged by the oracle alone (the model\'s handlers do not suspe
 def suspended(cfg, ops, kind, seed, ticks):
     r, vs = hsuite.evaluate(kind, cfg, ops, ['c05'], PROFILE['finale'], seed=seed, runner_kw=dict(disc_suspends=ticks))
     vs = [x for x in vs if x['facts'].get('clause') in SUSPEND_CLAUSES]
+    if cfg.monitor and r.post:
+        # ... and once it has had its disconnect event a session leaves the server's table (the finale lets the monitor sweep)
+        import oracles
+        v = oracles.View(r)
+        for s_ in range(v.n):
+            if any(k == 'disconnect' for _, k, _ in v.events[s_]) and r.post[-1].get(s_) is not None:
+                vs.append(dict(what='a session that has had its disconnect event is still in the server\'s table after the monitor has swept',
+                               case=v.case(dict(detail=dict(session=s_))), facts=dict(clause='ended-session-reaped', server=kind, session=s_)))
     for x in vs:
         x['facts']['suspending_handler'] = ticks
         x['case']['suspend_ticks'] = ticks
@@ -35,16 +43,24 @@ def fixed_suspended():
         for first in (close, ('disc', 0), ('disc', None)):
             for second in (close, ('disc', 0), ('disc', None), ('wsclose', 0) if ws else ('poll', 0), msg(7)):
                 out.append([opener, msg(1), first, second, msg(2), ('adv', 1000), second, msg(3)])
+    # the request that ended the session is cancelled by the web server while the disconnect handler is still suspended
+    for tail in ([], [('adv', 1)], [('post', 0, ('pk', [('msg', 5, 'none')]))]):
+        out.append([('open', 'polling', 'accept'), ('post', 0, ('pk', [('msg', 1, 'none')])), ('post', 0, ('pk', ['close'])), ('cancelreq',)] + tail + [('adv', 1000)])
+        out.append([('open', 'polling', 'accept'), ('open', 'polling', 'accept'), ('post', 1, ('pk', [('msg', 1, 'none'), 'bad'])), ('cancelreq',)] + tail + [('adv', 1000)])
     return out
 
 
-def run_suspended(ctx, res):
+def run_suspended(ctx, res, only=None, n_quick=150, n_thorough=6000):
     rng = ctx.rng
     reported = set()
     hs = [(hist.Cfg(), ops) for ops in fixed_suspended()]
-    for h in range(ctx.n(150, 6000)):
+    for h in range(ctx.n(n_quick, n_thorough)):
         cfg = hsuite.gen_cfg(rng, PROFILE)
-        hs.append((cfg, hist.gen_history(rng, cfg, rng.choice([8, 14]), PROFILE['weights'])))
+        ops = hist.gen_history(rng, cfg, rng.choice([8, 14]), PROFILE['weights'])
+        if rng.random() < 0.3:
+            # ... with the requests that carry an end cause cancelled while they are still being served
+            ops = [y for o in ops for y in ([o, ('cancelreq',)] if o[0] == 'post' and rng.random() < 0.5 else [o])]
+        hs.append((cfg, ops))
     for h, (cfg, ops) in enumerate(hs):
         ticks = [1, 64, 700][h % 3]
         for kind in ('threaded', 'asyncio'):
@@ -55,6 +71,8 @@ def run_suspended(ctx, res):
                 continue
             res.count((kind, 'suspending', ticks, cfg.key(), tuple(map(repr, r.log))), True, 'suspending:' + kind)
             for x in vs:
+                if only is not None and x['facts'].get('clause') not in only:
+                    continue
                 key = (x['what'], kind)
                 if key not in reported or len(res.violations) < 40:
                     res.violations.append(x)
